@@ -15,8 +15,14 @@ generated objects read-only before first use and runs every public operation on 
 type descriptor (any store is reported with pc -> file:line and address -> symbol; the
 image is also compared byte by byte with a snapshot), and (b) runs the same battery from
 N threads released by a barrier before any use of a type, under ThreadSanitizer, each
-thread's log compared with its solo run."""
-import sys, os, re
+thread's log compared with its solo run.
+Round 3 (seeded change C19-5): the type shapes come from lib/c19_zoo.py - the decisions the skeleton codecs take on the contents of
+specifics / member tables / constraint records, one type per side (module C19Z), evaluated on the linked tables by `c19drv shapes`;
+per type valid and invalid values (directed seeds, foreign-version peers, mutilated / zeroed / absent structures), other BER forms,
+failing callbacks at several positions, caller-provided structures, stack limits; oracles PARTS (every table reachable from a
+descriptor is inside the watched image) and CLOSURE (no word of the image points at writable memory outside it: hypothesis `closed`
+of coq/Conc/DescrClosure.v); thorough tier: gcov function / line / branch coverage of the skeletons under the same battery."""
+import sys, os, re, time
 sys.path.insert(0, os.path.join(os.path.dirname(os.path.abspath(__file__)), "..", "lib"))
 sys.path.insert(0, os.path.join(os.path.dirname(os.path.abspath(__file__)), "..", "harness"))
 from vlib import *
@@ -60,9 +66,18 @@ def run_thr(exe, seed, nthr, nops, timeout=600):
     return "ok", {"summary": summary}, ""
 
 
+def own_findings(run):
+    """the lead assembles known_findings.json; until then read this property's fragment directly"""
+    import json
+    have = {f["id"] for f in run.findings}
+    p = os.path.join(VERIF, "findings.d", "C19.json")
+    if os.path.exists(p):
+        run.findings += [f for f in json.load(open(p)) if f.get("status") == "open" and f["id"] not in have]
+
+
 def dynamic_part(run, tier, scr):
     """ties `descr_unchanged`: no operation on any type stores into the writable image of skeleton + generated objects"""
-    dyn = {"variants": {}, "modules": [], "unreached_functions_all_variants": None}
+    dyn = {"variants": {}, "modules": [], "unreached_functions_all_variants": None, "shapes": None, "values": None, "gcov": None}
     known = [(re.compile(f["written_symbol"]), f["id"]) for f in run.findings if f.get("written_symbol")]
     try:
         asn1c, skel = build_asn1c()
@@ -70,11 +85,16 @@ def dynamic_part(run, tier, scr):
         dyn["modules"] = [m["name"] for m, _, _ in mods]
         root = os.path.join(scr, "c19dyn")
         unreached = None
+        shapes, values, covs = {}, {}, {}
         for (tag, opts, xc, tiers, skip_rx) in U.VARIANTS:
             if tier not in tiers:
                 continue
-            v = U.build_variant(asn1c, skel, root, tag, opts, xc, mods, skip_rx)
+            want_cov = (tier == "thorough" and tag in U.COV_VARIANTS)
+            t0 = time.time()
+            v = U.build_variant(asn1c, skel, root, tag, opts, xc, mods, skip_rx, cov=want_cov)
+            t_build = time.time() - t0
             types = U.list_types(v)
+            shapes[tag] = U.shape_sides(v)
             run.count("dyn:programs(objects in image)", v["nfiles"])
             for t in types:
                 src = "not-a-pdu" if t["notpdu"] else "random_fill" if not t["nofill"] else "der-seeds" if t["seeds"] else "no-value-source"
@@ -83,7 +103,9 @@ def dynamic_part(run, tier, scr):
             info = {"options": v["opts"], "types": len(types),
                     "types_without_value_source": [t["name"] for t in types if t["nofill"] and not t["seeds"] and not t["notpdu"]]}
             # (a) read-only image
+            t0 = time.time()
             ro = U.run_ro(v, run.seed, 4 if tier == "quick" else 12)
+            info["wall_s"] = {"build": round(t_build, 1), "ro": round(time.time() - t0, 1)}
             m = re.search(r"ops=(\d+)", ro["summary"])
             run.count("dyn:ro:ops", int(m.group(1)) if m else 0)
             info["ro"] = {"summary": ro["summary"], "segments": ro["segments"], "selftest": ro["selftest"], "crashes_recovered": ro["crashes"][:10],
@@ -95,6 +117,46 @@ def dynamic_part(run, tier, scr):
                 run.violation("ro-image:selftest(%s)" % tag, {"what": "the read-only-image detector did not report the three canary stores "
                                                                         "(c19_canary.c) exactly: it cannot be trusted on this platform", "seen": ro["selftest"]}, no_input=True)
             run.count("dyn:ro:crash-recovered(not C19)", len(ro["crashes"]))
+            # probes of the open finding C19-oer-entry-null-codec (a crash of the unchanged library, recovered; not a reentrancy matter)
+            info["ro"]["probes"] = ro["probes"]
+            for pr in ro["probes"]:
+                if pr["sig"] is None:
+                    continue
+                if any(f["id"] == "C19-oer-entry-null-codec" for f in run.findings) and pr["probe"] == "oer-null-codec" and pr["sig"] == 11:
+                    run.known_finding("C19-oer-entry-null-codec", "%s:%s" % (pr["type"], pr["op"]))
+                else:
+                    run.violation("crash:%s(%s:%s)" % (pr["probe"], tag, pr["type"]),
+                                  {"what": "a probe of a library entry point ended in signal %s" % pr["sig"], "probe": pr, "asn1c_options": v["opts"]})
+            # every table reachable from a descriptor (specifics and the maps behind them included) lies inside the watched image
+            info["ro"]["descriptor_parts"] = ro["parts"]
+            info["ro"]["calls_per_operation"] = dict(sorted(ro["ops"].items()))
+            if ro["summary"] and (ro["parts"] is None or ro["parts"].get("outside", 1) != 0):
+                run.violation("ro-image:parts(%s)" % tag,
+                              {"what": "a table reachable from a type descriptor (descriptor, tags, member table, specifics and their maps, constraint records) lies outside "
+                                       "the image the detector protects: a store into it would not be seen, the set D of descr_unchanged does not cover it",
+                               "parts": ro["parts"], "outside": ro["parts_outside"][:20]}, no_input=True)
+            # pointer closure of the image (hypothesis `closed` of Conc/DescrClosure.v): no word of it holds the address of writable memory outside it
+            info["ro"]["pointer_closure"] = ro["closure"]
+            if ro["summary"] and not (ro["closure"].get("start") and ro["closure"].get("end")):
+                run.violation("ro-image:closure-scan(%s)" % tag, {"what": "the pointer-closure scan of the image did not run", "tail": ro["raw_tail"]}, no_input=True)
+            for sym in sorted(set(e["symbol"] for e in ro["closure_bad"])):
+                evs = [e for e in ro["closure_bad"] if e["symbol"] == sym]
+                fid = next((i for (rx, i) in known if rx.search(sym)), None)
+                if fid:
+                    run.known_finding(fid, sym)
+                    continue
+                at_start = any(e["when"] == "start" for e in evs)
+                run.violation("ro-image:closure(%s:%s)" % (tag, sym),
+                              {"what": "a word of the shared image holds the address of writable memory outside the image %s: memory that is not part of the type tables is "
+                                       "reachable (hence shared between threads) through a descriptor" % ("already at load time" if at_start else "after the operation battery (not before it)"),
+                               "hypothesis": "closed ptr D (coq/Conc/DescrClosure.v, C19_closure_invariant / C19_no_private_reachable) is false of this build",
+                               "symbol": sym, "words": evs[:8], "asn1c_options": v["opts"]}, no_input=at_start)
+            for tn, (nv, ni) in ro["values"].items():
+                a = values.setdefault(tn, [0, 0])
+                a[0] += nv
+                a[1] += ni
+            if want_cov:
+                covs[tag] = U.run_cov(v, run.seed, 12)
             by_sym = {}
             for e in ro["stores"]:
                 by_sym.setdefault(e["symbol"], {"stores": [], "diffs": []})["stores"].append(e)
@@ -114,8 +176,9 @@ def dynamic_part(run, tier, scr):
                                "stores": ev["stores"][:8], "changed": ev["diffs"][:8], "asn1c_options": v["opts"],
                                "replay_cmd": "lib/c19_util.build_variant(...'%s'...); <variant>/ro/c19drv ro %d %d" % (tag, run.seed, 4 if tier == "quick" else 12)})
             # (b) threads behind a barrier, ThreadSanitizer
-            rounds = [(run.seed, 4, 2)] if tier == "quick" else [(run.seed + k, 2 + 2 * (k % 4), 3) for k in range(4)]
+            rounds = [(run.seed, 4, 2)] if tier == "quick" else [(run.seed, 2, 2), (run.seed + 1, 4, 2), (run.seed + 2, 8, 2)]
             info["thr"] = []
+            t0 = time.time()
             for (sd, nthr, iters) in rounds:
                 verdict, summ, report = U.run_thr(v, sd, nthr, iters)
                 if verdict == "crash":
@@ -141,9 +204,28 @@ def dynamic_part(run, tier, scr):
                                    "thr": summ, "tsan_report": report, "asn1c_options": v["opts"],
                                    "replay_cmd": "<variant>/th/c19drv thr %d %d %d (TSAN_OPTIONS=suppressions=harness/c19_tsan.supp)" % (sd, nthr, iters)})
                     break
+            info["wall_s"]["thr"] = round(time.time() - t0, 1)
             dyn["variants"][tag] = info
         dyn["unreached_functions_all_variants"] = sorted(unreached or [])
         run.count("dyn:functions-never-entered", len(unreached or []))
+        # which sides of the decisions the codecs take on table contents (lib/c19_zoo.SHAPES) have a type with values in this run
+        sr = U.shape_report(shapes)
+        dyn["shapes"] = sr
+        run.count("dyn:shape-sides-with-a-type", sr["sides_seen"])
+        run.count("dyn:shape-sides-missing", len(sr["missing"]))
+        if sr["missing"]:
+            run.notes.append("decision sides without a type in the battery: %s" % ["%s=%s" % (m["key"], m["side"]) for m in sr["missing"]])
+        # values seen per type by verdict of the type's own checker: both verdicts wanted where the type has constraints
+        dyn["values"] = {"types": len(values), "never_valid": sorted(t for t, (a, b) in values.items() if a == 0),
+                         "never_invalid": sorted(t for t, (a, b) in values.items() if b == 0),
+                         "valid_total": sum(a for a, b in values.values()), "invalid_total": sum(b for a, b in values.values())}
+        run.count("dyn:values:valid", dyn["values"]["valid_total"])
+        run.count("dyn:values:invalid", dyn["values"]["invalid_total"])
+        run.count("dyn:types-never-valid", len(dyn["values"]["never_valid"]))
+        if covs:
+            dyn["gcov"] = U.merge_cov(covs)
+            run.count("dyn:gcov:functions-never-executed", len(dyn["gcov"]["functions_never_executed"]))
+            run.count("dyn:gcov:branches-never-taken", dyn["gcov"]["branches_never_taken"])
         if len(run.cov["samples"]) < 11:
             k = sorted(dyn["variants"])[0] if dyn["variants"] else None
             if k:
@@ -155,6 +237,7 @@ def dynamic_part(run, tier, scr):
 
 def main(tier):
     run = Run("C19", tier)
+    own_findings(run)
     scr = scratch()
     # 1. proofs
     ok, out = coq_build()
@@ -326,9 +409,11 @@ def main(tier):
                        "descr_unchanged is tied by testing, not proved: the read-only image detector sees every store executed by the battery "
                        "(all types of %s under the listed asn1c option sets, valid + damaged inputs); a store on a path the battery does not "
                        "execute is not seen - `unreached_functions_all_variants` lists the library functions never entered" % ", ".join(dyn.get("modules") or []),
-                       "not exercised: failing output callbacks (unchanged library asserts: C07), OER encoding of values that fail their own constraint check "
-                       "(BIT_STRING_encode_oer padding loop never terminates: C07), compare with a NULL operand (BIT_STRING_compare crashes), ber_tlv_tag_string / asn_bit_data_string "
-                       "(documented static-buffer debug helpers), -DASN_DEBUG builds",
+                       "the type shapes are those of lib/c19_zoo.py (decision list SHAPES derived by hand from the branch conditions of the skeleton codecs; "
+                       "`dynamic.shapes.missing` lists sides without a type, `dynamic.gcov` (thorough tier) the functions never executed and the branches never taken)",
+                       "not exercised: allocation failure (C14's harness injects it), compare with a NULL operand (BIT_STRING_compare crashes), ber_tlv_tag_string / "
+                       "asn_bit_data_string (documented static-buffer debug helpers), -DASN_DEBUG builds, -fno-constraints (asn_check_constraints calls a NULL checker for "
+                       "reference types), oer_decode()/oer_encode() on types without an OER codec (open finding C19-oer-entry-null-codec: probed, not part of the battery)",
                        "random() is replaced by a thread-local generator in the harness: asn_random_fill's use of libc's shared random state is outside the property",
                        "TSan suppressions (harness/c19_tsan.supp): glibc's tz state behind its internal tzset_lock, reached through mktime()"],
                    "notes": run.notes},
@@ -339,7 +424,9 @@ def main(tier):
                       "hypothesis descr_unchanged of C19_descr_invariant / C19_statics_and_descr_imply_irrelevant (no call stores into the type tables): "
                       "tied dynamically by harness/c19drv.c (mprotect read-only image + SIGSEGV single-step logger + snapshot compare, self-tested by "
                       "three canary stores every run; Linux x86-64, dl_iterate_phdr, GNU ld RELRO layout) and by the TSan battery of the same driver",
-                      "lib/c19_util.py hand-made modules C19K/C19X + one modgen module: the set of type shapes the tie quantifies over"],
+                      "lib/c19_util.py hand-made modules C19K/C19X, lib/c19_zoo.py module C19Z (one type per side of the decision list SHAPES) + one modgen module: "
+                      "the set of type shapes the tie quantifies over; SHAPES itself is a hand review of skeletons/*.c, cross-checked by the gcov report of the thorough tier",
+                      "PARTS / CLOSURE scans of harness/c19drv.c (dl_iterate_phdr, /proc/self/maps; every aligned word of the image taken as a potential pointer)"],
         checker_cmd="coqc -Q coq A1 <scratch>/Gen_Statics.v",
         assumptions=["axioms printed: %s" % (sorted(axioms) or "none (Closed under the global context)"),
                      "x86-64 LP64, gcc default PIE code model; glibc MT-safety of the externals listed in statics_allow.json",
